@@ -365,6 +365,15 @@ package twig
 //@   requires[C20,C01,C03] global CacheOK()
 //@   ensures[C20,C01,C03] CacheOK()
 //@   loop * invariant[C20,C01,C03] CacheOK()
+// the attribute cache's map is made by the package initialiser and its field is never assigned again
+// (mapwriters: the stores of the listed writers are all entries, none replaces the map), so it is
+// never nil: C05 (no "assignment to entry in nil map" in getAttribute)
+//@ func evictLRUEntries props: C05
+//@   requires[C05] global attributeCache.m != nil
+//@   ensures[C05] attributeCache.m != nil
+//@ func (*RenderContext).getAttribute props: C05
+//@   requires[C05] global attributeCache.m != nil
+//@   ensures[C05] attributeCache.m != nil
 //@ func evictLRUEntries$1 props: C02
 //@   flag holds attributeCache
 // pooled per-call objects: nothing they own may be used after they are handed back
